@@ -129,6 +129,7 @@ func (ss *blobAccessMutableProtoStore[T, TProto]) Get(ctx context.Context, reduc
 			panic("Handle has bad write index")
 		}
 		handle.handlesToWriteIndex = -1
+		handle.isWriting = true
 		handlesToWrite = append(handlesToWrite, handleToWrite[T, TProto]{
 			handle:         handle,
 			message:        proto.Clone(TProto(&handle.message)),
@@ -165,12 +166,14 @@ func (ss *blobAccessMutableProtoStore[T, TProto]) Get(ctx context.Context, reduc
 		group.Go(func() error {
 			if err := ss.initialSizeClassCache.Put(ctxWithCancel, handleToWrite.handle.digest, buffer.NewProtoBufferFromProto(handleToWrite.message, buffer.UserProvided)); err != nil {
 				ss.lock.Lock()
+				handleToWrite.handle.isWriting = false
 				handleToWrite.handle.removeOrQueueForWriteLocked()
 				ss.lock.Unlock()
 				return util.StatusWrapf(err, "Failed to write mutable Protobuf message with digest %#v", handleToWrite.handle.digest.String())
 			}
 			ss.lock.Lock()
 			handleToWrite.handle.writtenVersion = handleToWrite.writingVersion
+			handleToWrite.handle.isWriting = false
 			handleToWrite.handle.removeOrQueueForWriteLocked()
 			ss.lock.Unlock()
 			return nil
@@ -226,6 +229,13 @@ type blobAccessMutableProtoHandle[T any, TProto interface {
 	// track of this index, so that we can remove the handle from
 	// the list if needed.
 	handlesToWriteIndex int
+
+	// Whether Get() is currently writing a copy of the message to
+	// storage. While that is the case the handle is neither removed
+	// nor queued for writing again, as a second write could complete
+	// before the first one and be overwritten by it. The completion
+	// of the write takes care of removing or requeueing the handle.
+	isWriting bool
 }
 
 func (sh *blobAccessMutableProtoHandle[T, TProto]) GetMutableProto() TProto {
@@ -258,7 +268,7 @@ func (sh *blobAccessMutableProtoHandle[T, TProto]) decreaseUseCount() {
 }
 
 func (sh *blobAccessMutableProtoHandle[T, TProto]) removeOrQueueForWriteLocked() {
-	if sh.useCount == 0 {
+	if sh.useCount == 0 && !sh.isWriting {
 		ss := sh.store
 		if sh.writtenVersion == sh.currentVersion {
 			// No changes were made to the message. Simply
